@@ -1,1 +1,279 @@
-pub fn placeholder() {}
+//! Direct seams to the link and transport components and to the application codecs.
+//! Plain data in, plain data out: nothing here decides a verdict.
+
+use std::future::Future;
+use std::pin::Pin;
+use std::sync::Arc;
+use std::task::{Context, Poll};
+
+use crate::app::EndpointType;
+use crate::decode::DecodeLevel;
+use crate::link::format::{format_data_frame, format_header_fixed_size, format_header_only, Payload};
+use crate::link::header::{AnyAddress, ControlField, Header};
+use crate::link::parser::FramePayload;
+use crate::link::reader::{LinkModes, Reader as LinkReader};
+use crate::link::{EndpointAddress, LinkErrorMode, LinkReadMode};
+use crate::outstation::Feature;
+use crate::transport::real::reader::Reader as TransportReader;
+use crate::transport::real::writer::Writer as TransportWriter;
+use crate::transport::{FragmentAddr, TransportData};
+use crate::util::phys::{PhysAddr, PhysLayer};
+
+use super::pipe::{pipe, PipeHandle};
+
+fn noop_waker() -> std::task::Waker {
+    struct Noop;
+    impl std::task::Wake for Noop {
+        fn wake(self: Arc<Self>) {}
+    }
+    std::task::Waker::from(Arc::new(Noop))
+}
+
+fn poll_once<F: Future>(fut: Pin<&mut F>) -> Poll<F::Output> {
+    let waker = noop_waker();
+    let mut cx = Context::from_waker(&waker);
+    fut.poll(&mut cx)
+}
+
+fn modes(close: bool, datagram: bool) -> LinkModes {
+    LinkModes {
+        error_mode: if close { LinkErrorMode::Close } else { LinkErrorMode::Discard },
+        read_mode: if datagram { LinkReadMode::Datagram } else { LinkReadMode::Stream },
+    }
+}
+
+pub fn decode_level(all: bool) -> DecodeLevel {
+    if all {
+        DecodeLevel {
+            application: crate::decode::AppDecodeLevel::ObjectValues,
+            transport: crate::decode::TransportDecodeLevel::Payload,
+            link: crate::decode::LinkDecodeLevel::Payload,
+            physical: crate::decode::PhysDecodeLevel::Data,
+        }
+    } else {
+        DecodeLevel::nothing()
+    }
+}
+
+// ---------------------------------------------------------------------------------------
+// link formatters
+// ---------------------------------------------------------------------------------------
+
+/// `format_data_frame` for an unconfirmed-user-data header (the only data frames the library
+/// transmits): transport byte + application bytes
+pub fn link_format_data(is_master: bool, dst: u16, src: u16, transport: u8, app: &[u8]) -> Option<Vec<u8>> {
+    let mut buffer = [0u8; 400];
+    let mut cursor = scursor::WriteCursor::new(&mut buffer);
+    let header = Header::unconfirmed_user_data(is_master, AnyAddress::from(dst), AnyAddress::from(src));
+    match format_data_frame(header, Payload::new(transport, app), &mut cursor) {
+        Ok(data) => Some(data.frame.to_vec()),
+        Err(_) => None,
+    }
+}
+
+/// `format_data_frame` with an arbitrary control byte
+pub fn link_format_data_ctrl(ctrl: u8, dst: u16, src: u16, transport: u8, app: &[u8]) -> Option<Vec<u8>> {
+    let mut buffer = [0u8; 400];
+    let mut cursor = scursor::WriteCursor::new(&mut buffer);
+    let header = Header::new(ControlField::from(ctrl), AnyAddress::from(dst), AnyAddress::from(src));
+    match format_data_frame(header, Payload::new(transport, app), &mut cursor) {
+        Ok(data) => Some(data.frame.to_vec()),
+        Err(_) => None,
+    }
+}
+
+/// `format_header_fixed_size` (link replies)
+pub fn link_format_header_fixed(ctrl: u8, dst: u16, src: u16) -> Vec<u8> {
+    let mut buffer = [0u8; 10];
+    let header = Header::new(ControlField::from(ctrl), AnyAddress::from(dst), AnyAddress::from(src));
+    format_header_fixed_size(header, &mut buffer);
+    buffer.to_vec()
+}
+
+/// `format_header_only` (link status requests)
+pub fn link_format_header_only(ctrl: u8, dst: u16, src: u16) -> Option<Vec<u8>> {
+    let mut buffer = [0u8; 32];
+    let mut cursor = scursor::WriteCursor::new(&mut buffer);
+    let header = Header::new(ControlField::from(ctrl), AnyAddress::from(dst), AnyAddress::from(src));
+    match format_header_only(header, &mut cursor) {
+        Ok(data) => Some(data.frame.to_vec()),
+        Err(_) => None,
+    }
+}
+
+// ---------------------------------------------------------------------------------------
+// link reader (parser + buffering) over a pipe
+// ---------------------------------------------------------------------------------------
+
+#[derive(Clone, Debug, PartialEq, Eq, Hash)]
+pub struct FrameOut {
+    pub ctrl: u8,
+    pub dst: u16,
+    pub src: u16,
+    pub payload: Vec<u8>,
+}
+
+pub struct LinkReaderSeam {
+    reader: LinkReader,
+    io: PhysLayer,
+    pub handle: PipeHandle,
+    level: DecodeLevel,
+}
+
+impl LinkReaderSeam {
+    pub fn new(close: bool, datagram: bool, max_fragment_size: usize, decode_all: bool) -> Self {
+        let (p, handle) = pipe();
+        handle.set_datagram(datagram);
+        Self {
+            reader: LinkReader::new(modes(close, datagram), max_fragment_size),
+            io: PhysLayer::Verif(p),
+            handle,
+            level: decode_level(decode_all),
+        }
+    }
+
+    /// poll `read_frame` until it is pending: returns every delivered frame and the first error
+    pub fn drain(&mut self) -> (Vec<FrameOut>, Option<String>) {
+        let mut out = Vec::new();
+        loop {
+            let mut payload = FramePayload::new();
+            let res = {
+                let fut = self.reader.read_frame(&mut self.io, &mut payload, self.level);
+                let mut fut = std::pin::pin!(fut);
+                poll_once(fut.as_mut())
+            };
+            match res {
+                Poll::Pending => return (out, None),
+                Poll::Ready(Ok((header, _addr))) => out.push(FrameOut {
+                    ctrl: header.control.to_u8(),
+                    dst: header.destination.value(),
+                    src: header.source.value(),
+                    payload: payload.get().to_vec(),
+                }),
+                Poll::Ready(Err(err)) => return (out, Some(format!("{err:?}"))),
+            }
+        }
+    }
+
+    pub fn reset(&mut self) {
+        self.reader.reset();
+    }
+}
+
+// ---------------------------------------------------------------------------------------
+// transport writer / reader over a pipe
+// ---------------------------------------------------------------------------------------
+
+pub struct TransportWriterSeam {
+    writer: TransportWriter,
+    io: PhysLayer,
+    pub handle: PipeHandle,
+    level: DecodeLevel,
+}
+
+impl TransportWriterSeam {
+    pub fn new(is_master: bool, local: u16, decode_all: bool) -> Self {
+        let (p, handle) = pipe();
+        let t = if is_master { EndpointType::Master } else { EndpointType::Outstation };
+        Self {
+            writer: TransportWriter::new(t, EndpointAddress::try_new(local).unwrap()),
+            io: PhysLayer::Verif(p),
+            handle,
+            level: decode_level(decode_all),
+        }
+    }
+
+    /// write one fragment; returns the bytes written (one entry per physical write)
+    pub fn write(&mut self, dst: u16, fragment: &[u8]) -> Result<Vec<Vec<u8>>, String> {
+        let dest = FragmentAddr { link: EndpointAddress::try_new(dst).unwrap(), phys: PhysAddr::None };
+        let res = {
+            let fut = self.writer.write(&mut self.io, self.level, dest, fragment);
+            let mut fut = std::pin::pin!(fut);
+            poll_once(fut.as_mut())
+        };
+        match res {
+            Poll::Pending => Err("pending".to_string()),
+            Poll::Ready(Err(e)) => Err(format!("{e:?}")),
+            Poll::Ready(Ok(())) => Ok(self.handle.take_tx().into_iter().map(|x| x.1).collect()),
+        }
+    }
+
+    pub fn reset(&mut self) {
+        self.writer.reset();
+    }
+}
+
+#[derive(Clone, Debug, PartialEq, Eq, Hash)]
+pub enum TransportOut {
+    /// a delivered fragment: id, source link address, broadcast mode (0 optional, 1 mandatory, 2 not required)
+    Fragment { id: u32, src: u16, broadcast: Option<u8>, data: Vec<u8> },
+    LinkMessage { src: u16, request: bool },
+}
+
+pub struct TransportReaderSeam {
+    reader: TransportReader,
+    io: PhysLayer,
+    pub handle: PipeHandle,
+    level: DecodeLevel,
+}
+
+impl TransportReaderSeam {
+    pub fn new(is_master: bool, local: u16, self_address: bool, close: bool, datagram: bool, rx_size: usize, decode_all: bool) -> Self {
+        let (p, handle) = pipe();
+        handle.set_datagram(datagram);
+        let addr = EndpointAddress::try_new(local).unwrap();
+        let reader = if is_master {
+            TransportReader::master(modes(close, datagram), addr, rx_size)
+        } else {
+            TransportReader::outstation(
+                modes(close, datagram),
+                addr,
+                if self_address { Feature::Enabled } else { Feature::Disabled },
+                rx_size,
+            )
+        };
+        Self { reader, io: PhysLayer::Verif(p), handle, level: decode_level(decode_all) }
+    }
+
+    /// poll `read` + `pop` until pending; returns deliveries, link replies written, first error
+    pub fn drain(&mut self) -> (Vec<TransportOut>, Option<String>) {
+        let mut out = Vec::new();
+        loop {
+            let res = {
+                let fut = self.reader.read(&mut self.io, self.level);
+                let mut fut = std::pin::pin!(fut);
+                poll_once(fut.as_mut())
+            };
+            match res {
+                Poll::Pending => return (out, None),
+                Poll::Ready(Err(e)) => return (out, Some(format!("{e:?}"))),
+                Poll::Ready(Ok(())) => match self.reader.pop() {
+                    None => {}
+                    Some(TransportData::Fragment(f)) => out.push(TransportOut::Fragment {
+                        id: f.info.id,
+                        src: f.info.addr.link.raw_value(),
+                        broadcast: f.info.broadcast.map(|m| match m {
+                            crate::link::header::BroadcastConfirmMode::Optional => 0,
+                            crate::link::header::BroadcastConfirmMode::Mandatory => 1,
+                            crate::link::header::BroadcastConfirmMode::NotRequired => 2,
+                        }),
+                        data: f.data.to_vec(),
+                    }),
+                    Some(TransportData::LinkLayerMessage(m)) => out.push(TransportOut::LinkMessage {
+                        src: m.source.raw_value(),
+                        request: matches!(m.message, crate::transport::LinkLayerMessageType::LinkStatusRequest),
+                    }),
+                },
+            }
+        }
+    }
+
+    pub fn reset(&mut self) {
+        self.reader.reset();
+    }
+
+    /// bytes the link layer wrote in reply (ACK, LINK_STATUS)
+    pub fn take_written(&self) -> Vec<Vec<u8>> {
+        self.handle.take_tx().into_iter().map(|x| x.1).collect()
+    }
+}
